@@ -5,6 +5,7 @@ CONSTANTS
   RSig = {}
   REmpty = {}
   RHetBet = FALSE
+  RUnlisted = {}
 INIT TInit
 NEXT TNext
 POSTCONDITION Accepted
